@@ -847,6 +847,51 @@ def explore_number_subscription_race(run, focus, n):
         run.case(cj, nontrivial=True)
 
 
+def explore_many_subscribers(run, focus):
+    """far more subscriber queues on one signal than a scenario holds (several hundred, beyond every size constant of the
+    library): each receives every publication exactly once per kind, and the first subscribers are still served (oracle only)"""
+    rng = run.rng
+    n = rng.choice([501, 503, 520, 600])
+    with dsched.Installed():
+        sched = dsched.Sched(dsched.round_robin_chooser(), max_steps=20000, trace=False, yield_filter=yield_filter)
+        dsched.Sched.current = sched
+        errors = []
+        counts = None
+        try:
+            if hasattr(mao.FabricEvent, "sequence"):
+                import itertools
+                mao.FabricEvent.sequence = itertools.count()
+            af = mao.ActiveFabric()
+            qs = [collections.deque(maxlen=10) for _ in range(n)]
+
+            def client():
+                for q in qs:
+                    af.subscribe(q, Event(signal="S0"), queue_type="fifo")
+                    af.subscribe(q, Event(signal="S0"), queue_type="lifo")
+                af.start()
+                af.publish(Event(signal="S0", payload=1))
+                af.publish(Event(signal="S0", payload=2), priority=5)
+            sched.spawn(client, (), name="K0")
+            sched.run()
+            for t in sched.threads:
+                if t.error is not None:
+                    errors.append("%s: %s: %s" % (t.name, type(t.error).__name__, t.error))
+            counts = [collections.Counter(e.payload for e in q) for q in qs]
+        finally:
+            sched.shutdown()
+    cj = {"what": "many-subscribers", "queues": n}
+    run.count("several hundred subscriber queues on one signal")
+    run.traces_validated += 1
+    if errors:
+        run.violate("%s/thread-error" % focus, "%d subscribers on one signal: %s" % (n, errors[:2]), cj)
+    elif counts is not None:
+        bad = [i for i, c in enumerate(counts) if c != collections.Counter({1: 2, 2: 2})]
+        if bad:
+            run.violate("%s/delivery-count" % focus, "%d queues subscribed (fifo and lifo) to one signal, two publications: queues %s%s did not receive "
+                        "each publication once per kind, e.g. queue %d holds %s" % (n, bad[:5], "..." if len(bad) > 5 else "", bad[0], dict(counts[bad[0]])), cj)
+    run.case(cj, nontrivial=True)
+
+
 def explore_fe_order(run, n):
     """FabricEvent ordering far beyond what a schedule can queue up: pairs and triples of fabric events whose creation numbers
     are up to 10^7 apart (a delivery thread that lags that far), all priorities a caller may pass: `<` is the lexicographic
@@ -964,7 +1009,7 @@ def explore_heap(run, n):
 
 def replay(case):
     cc = case.get("case", case)
-    if cc.get("what") == "heap":
+    if cc.get("what") in ("heap", "many-subscribers"):
         print(cc)
         return 0
     if cc.get("what") == "fe-order":
